@@ -163,21 +163,41 @@ func genCase(e2e bool) func(t *rapid.T) permCase {
 		nreq := rapid.IntRange(1, 4).Draw(t, "nreq")
 		for i := 0; i < nreq; i++ {
 			leaf := rapid.SampledFrom(leafs).Draw(t, "leaf")
-			switch rapid.IntRange(0, 7).Draw(t, "reqk") {
+			switch rapid.IntRange(0, 8).Draw(t, "reqk") {
 			case 0, 1, 2:
 				c.Requests = append(c.Requests, "ROOT/"+leaf)
 			case 3: // with .. segments
 				c.Requests = append(c.Requests, "ROOT/"+rapid.SampledFrom(dirs).Draw(t, "viadir")+"/../"+leaf)
-			case 4: // through a link to a directory, if any
-				added := false
+			case 4, 8: // through a link to a directory, to a file that really is in that directory (if there is such a pair)
+				var cands []string
 				for _, e := range c.Entries {
-					if e.Kind == model.KLink && !added && rapid.Bool().Draw(t, "vial") {
-						c.Requests = append(c.Requests, "ROOT/"+e.Path+"/"+path.Base(leaf))
-						added = true
+					if e.Kind != model.KLink || !strings.HasPrefix(e.Target, "ROOT/") {
+						continue
+					}
+					td := strings.TrimPrefix(e.Target, "ROOT/")
+					for _, f := range c.Entries {
+						if f.Kind == model.KFile && path.Dir(f.Path) == td {
+							cands = append(cands, "ROOT/"+e.Path+"/"+path.Base(f.Path))
+							if e2e {
+								cands = append(cands, "ROOT/"+e.Path+"/*")
+							}
+						}
 					}
 				}
-				if !added {
-					c.Requests = append(c.Requests, "ROOT/"+leaf)
+				if len(cands) > 0 {
+					c.Requests = append(c.Requests, rapid.SampledFrom(cands).Draw(t, "via-dirlink"))
+				} else {
+					// any link with some leaf name below it (mostly a path that does not exist)
+					added := false
+					for _, e := range c.Entries {
+						if e.Kind == model.KLink && !added && rapid.Bool().Draw(t, "vial") {
+							c.Requests = append(c.Requests, "ROOT/"+e.Path+"/"+path.Base(leaf))
+							added = true
+						}
+					}
+					if !added {
+						c.Requests = append(c.Requests, "ROOT/"+leaf)
+					}
 				}
 			case 5: // glob over a directory
 				if e2e {
